@@ -320,8 +320,20 @@ func RunWorker(cfg WorkerConfig) int {
 		runSeed := MixSeed(wseed, uint64(i))
 		tape := NewTape(runSeed)
 		ctx.Shrink = false
+		Overrun = ""
 		res := cfg.Prop.Run(ctx, tape)
 		part.Runs++
+
+		if Overrun != "" {
+			// an observation of the tree (direct calls of the harness) was cut: some library call does not return
+			// on the state this run reached. That is C07's verdict, whichever check meets it; the instance may be
+			// left with locks held, so nothing is shrunk and the worker ends after reporting.
+			res.Harness = ""
+			res.Violation = &Violation{
+				Prop: "C07", Class: "hang-busy", Sig: "a library call made to observe the tree does not return",
+				Msg: "while observing the tree after this run: " + Overrun,
+			}
+		}
 
 		if runLog != nil {
 			// determinism self-test: everything a run decided and observed, one line per run.
@@ -578,7 +590,18 @@ func RunParent(cfg ParentConfig) int {
 			cmd := exec.Command(cfg.Self, args...)
 			cmd.Env = append(os.Environ(), cfg.WorkerEnv...)
 			cmd.Env = append(cmd.Env, "GOMAXPROCS=2", fmt.Sprintf("VERIF_WORKER=%d", w))
+			// safety net: a worker that is still running long after its budget (a library call spinning outside
+			// the scheduler's reach) is killed and counted as a harness failure, never as a verdict.
+			grace := 3*cfg.Budget + 3*time.Minute
+			timer := time.AfterFunc(cfg.Budget+grace, func() {
+				if cmd.Process != nil {
+					_ = cmd.Process.Kill()
+				}
+			})
+
 			b, err := cmd.CombinedOutput()
+			timer.Stop()
+
 			code := 0
 
 			if err != nil {
